@@ -506,8 +506,11 @@ class AgentStep(Step):
         ctx = CTX.get(self.parameters['run_id'])
         if ctx is not None:
             ctx.keep.append(self)
+            own = None
+            if ctx.snap and ctx.engine is not None:
+                own = own_compartment(ctx.engine.state, self)
             ctx.rec('step', self.name, ctx.now(), timestep, id(self),
-                    copy.deepcopy(states), None)
+                    copy.deepcopy(states), own)
         return {}
 
 
@@ -891,6 +894,10 @@ class EmitProcess(Process):
                     rid, 'leaf:' + '/'.join(leaf['path']))
             if leaf['kind'] == 'ser':
                 decl['_serializer'] = 'vv-tag'
+                if leaf.get('inplace'):
+                    # a list that its updater extends in place
+                    decl['_default'] = []
+                    decl['_updater'] = vv_extend
             cur = schema
             for seg in leaf['path'][:-1]:
                 cur = cur.setdefault(seg, {})
@@ -909,6 +916,8 @@ class EmitProcess(Process):
                 if not leaf.get('write'):
                     continue        # never written: stays as declared
                 v = [3.0 * units(leaf.get('upd_unit') or leaf['unit']).units]
+            elif leaf.get('inplace'):
+                v = [1]
             else:
                 v = 1
             cur = upd
